@@ -77,6 +77,10 @@ type Frame struct {
 	// recovered: frame has deferred recover
 	recovers bool
 	isInit   bool
+	// localOnly > 0: executing inside a loop declared `modifies local`
+	localOnly bool
+	pendingRes  []Term
+	pendingResT *types.Tuple
 }
 
 func (fr *Frame) topFrame() *Frame {
@@ -111,10 +115,64 @@ func (fr *Frame) oblige(kind, label string, cond Term, pos token.Pos, desc strin
 	if fr.ignored(kind) {
 		return
 	}
+	// a top-level conjunction is split into one obligation per conjunct: smaller queries, and
+	// a failure names the conjunct
+	parts := splitTopAnd(cond)
+	if len(parts) > 1 && len(parts) <= 40 {
+		for i, p := range parts {
+			o := fr.c.oblige(fmt.Sprintf("%s.%d", name, i), kind, label, fr.reach, p, pos, fmt.Sprintf("%s [conjunct %d of %d]", desc, i+1, len(parts)))
+			if o != nil {
+				o.Func = funcKey(fr.topFrame().fn)
+			}
+		}
+		return
+	}
 	o := fr.c.oblige(name, kind, label, fr.reach, cond, pos, desc)
 	if o != nil {
 		o.Func = funcKey(fr.topFrame().fn)
 	}
+}
+
+// splitTopAnd splits an SMT term "(and a b ...)" into its top-level conjuncts (recursively).
+func splitTopAnd(t Term) []Term {
+	s := t.S
+	if !strings.HasPrefix(s, "(and ") || !strings.HasSuffix(s, ")") {
+		return []Term{t}
+	}
+	inner := s[5 : len(s)-1]
+	var out []Term
+	depth := 0
+	start := 0
+	flush := func(end int) {
+		part := strings.TrimSpace(inner[start:end])
+		if part != "" {
+			out = append(out, splitTopAnd(Term{part, SBool})...)
+		}
+	}
+	for i := 0; i < len(inner); i++ {
+		switch inner[i] {
+		case '(':
+			depth++
+		case ')':
+			depth--
+		case ' ':
+			if depth == 0 {
+				flush(i)
+				start = i + 1
+			}
+		case '|':
+			// quoted symbol: skip to closing bar
+			j := strings.IndexByte(inner[i+1:], '|')
+			if j >= 0 {
+				i += j + 1
+			}
+		}
+	}
+	flush(len(inner))
+	if depth != 0 {
+		return []Term{t}
+	}
+	return out
 }
 
 func (fr *Frame) ignored(kind string) bool {
@@ -558,6 +616,7 @@ func (fr *Frame) exec(ins ssa.Instruction) {
 	case *ssa.Store:
 		p := fr.val(x.Addr)
 		fr.nilCheck(p, x.Pos(), "store through nil pointer")
+		fr.localWriteCheck(p, x.Pos())
 		fr.lockDiscipline(x.Addr, p, x.Pos())
 		c.store(fr.st, p, x.Val.Type(), fr.val(x.Val))
 	case *ssa.Convert:
@@ -768,6 +827,31 @@ func (fr *Frame) execUnOp(x *ssa.UnOp) {
 }
 
 func (fr *Frame) ghostEvent(kind string, ins ssa.Instruction) {}
+
+// inLocalOnly reports whether the current point lies in a loop declared `modifies local`.
+func (fr *Frame) inLocalOnly() bool {
+	if fr.localOnly {
+		return true
+	}
+	if fr.curBlock == nil {
+		return false
+	}
+	for _, li := range fr.loops {
+		if li.lc != nil && li.lc.LocalOnly && li.body[fr.curBlock.Index] {
+			return true
+		}
+	}
+	return false
+}
+
+// localWriteCheck: inside a `modifies local` loop every written cell must belong to an object
+// allocated by this function activation.
+func (fr *Frame) localWriteCheck(p Term, pos token.Pos) {
+	if !fr.inLocalOnly() {
+		return
+	}
+	fr.oblige("loop.local", "", Term{fmt.Sprintf("(>= (rootid %s) alloc@0)", p.S), SBool}, pos, "write inside a `modifies local` loop targets an object allocated by this function")
+}
 
 // assumeHere adds a fact that constrains pre-existing state (e.g. the content of freshly
 // allocated, never-written cells): it must be guarded by the reachability of the current
